@@ -75,6 +75,8 @@ def run(chk, scratch):
     common.replay(chk, vh, scratch, "c12", cb, name="ctx", mode="replay-ctx")
     pb = common.emit_behaviours(chk, scratch, SPEC, "Parallelise", "Parallelise_emit.cfg", "emit Parallelise scenarios", fast="tiny")
     pb += [{"n": 0, "fails": []}, {"n": 1, "fails": []}, {"n": 1, "fails": [1]}]
+    # fan-outs far larger than the model's: the result hand-over must not depend on the length of the list
+    pb += [{"n": 700, "fails": [1]}, {"n": 700, "fails": []}, {"n": 1500, "fails": [3, 1200]}]
     common.replay(chk, vh, scratch, "c12", pb, name="par", mode="replay-parallelise")
     # 3. recorded real executions validated by TLC
     tr, _ = common.record(vh, scratch, "c12", "sweep.ndjson", chk.seed, chk.tier, mode="sweep-timeout")
